@@ -6,6 +6,7 @@ import (
 	"reflect"
 	"regexp"
 	"sort"
+	"strconv"
 	"strings"
 	"sync"
 	"unicode"
@@ -496,7 +497,18 @@ func (n NamesSlice) GetSorted() NamesSlice {
 type hashableNamesSlice string
 
 func newHashableNamesSlice(n NamesSlice) hashableNamesSlice {
-	return hashableNamesSlice(n.String())
+	return hashableNamesSlice(n.bucketKey())
+}
+
+// bucketKey identifies a heading among the buckets of a union set. Unlike String it cannot confuse
+// the single name "a, b" with the two names a and b.
+func (n NamesSlice) bucketKey() string {
+	var sb strings.Builder
+	for _, name := range n {
+		sb.WriteString(strconv.Quote(name))
+		sb.WriteByte(',')
+	}
+	return sb.String()
 }
 
 func (s hashableNamesSlice) String() string {
